@@ -220,7 +220,7 @@ func runChain(c *ChainCase) (interface{}, error) {
 		} else {
 			ho["rid"] = -1
 		}
-		// C16: lookup by identifier under the five key maps of Chain!KeyMaps
+		// C16: lookup by identifier under the six key maps of Chain!KeyMaps
 		R, O := rootPub, otherPub
 		maps := []struct {
 			keys map[uint32]ed25519.PublicKey
@@ -231,6 +231,7 @@ func runChain(c *ChainCase) (interface{}, error) {
 			{map[uint32]ed25519.PublicKey{0xffffffff: O}, &R},
 			{map[uint32]ed25519.PublicKey{7: R}, nil},
 			{map[uint32]ed25519.PublicKey{0xffffffff: R, 0: O}, &O},
+			{map[uint32]ed25519.PublicKey{7: nil, 0xffffffff: R}, &R},
 		}
 		lk := []string{}
 		for _, m := range maps {
